@@ -63,6 +63,8 @@ type prop struct {
 	Quick       budget
 	Thorough    budget
 	Fuzz        *fuzzCfg
+	// Audit runs the python-jsonschema audit of the reference model in the thorough tier.
+	Audit bool
 }
 
 func (p *prop) buildNames() []string {
@@ -115,6 +117,7 @@ var props = []*prop{
 		Quick:       budget{Shards: 14, Checks: 20000, TimeoutS: 400},
 		Thorough:    budget{Shards: 14, Checks: 150000, TimeoutS: 3000},
 		Fuzz:        &fuzzCfg{Target: "FuzzC01", Seconds: 240},
+		Audit:       true,
 	},
 	{
 		ID: "C02", Pkg: "c02", Level: "exploration",
